@@ -230,6 +230,15 @@ func init() {
 				default:
 					use = fmt.Sprintf("use%d ![%s] end", u, l)
 				}
+				// a use may sit in a container as well: the continuation lines of a label that
+				// spans lines then start behind the container's marker or indentation
+				// (seeded change C12-j)
+				switch r.Intn(6) {
+				case 0:
+					use = prefixLines(use, "> ", "> ")
+				case 1:
+					use = prefixLines(use, "- ", "  ")
+				}
 				uses = append(uses, use)
 			}
 			if !ok {
@@ -293,6 +302,15 @@ func (c12) Check(ctx *core.Ctx, c *core.Case) {
 	}
 	var uses []use
 	for _, p := range parts {
+		if (strings.HasPrefix(p, "> use") || strings.HasPrefix(p, "- use")) && len(p) > 6 {
+			up, ok := unprefix(p[2:], map[byte]string{'>': "> ", '-': "  "}[p[0]])
+			if !ok {
+				ctx.Skip("not_generator_shape")
+				return
+			}
+			p = up
+			ctx.Inc("uses_inside_a_container")
+		}
 		switch {
 		case strings.HasPrefix(p, "use"):
 			// the oracle only speaks about documents of the generator's exact shape
@@ -369,13 +387,20 @@ func (c12) Check(ctx *core.Ctx, c *core.Case) {
 	rendered := map[int]string{}
 	r := &cm.HTMLRenderer{ReferenceMap: refs}
 	for _, rb := range blocks {
-		if rb.Kind() != cm.ParagraphKind {
-			continue
-		}
-		src := string(rb.Source)
-		if strings.HasPrefix(src, "use") && len(src) > 3 {
-			rendered[int(src[3]-'0')] = string(r.AppendBlock(nil, rb))
-		}
+		core.WalkTree(rb.AsNode(), func(n, _ cm.Node, _, _ int) {
+			b := n.Block()
+			if b == nil || b.Kind() != cm.ParagraphKind {
+				return
+			}
+			sp := b.Span()
+			if !sp.IsValid() || sp.End > len(rb.Source) {
+				return
+			}
+			src := string(rb.Source[sp.Start:sp.End])
+			if strings.HasPrefix(src, "use") && len(src) > 3 && src[3] >= '0' && src[3] <= '3' {
+				rendered[int(src[3]-'0')] = string(renderAsRoot(r, rb.Source, n))
+			}
+		})
 	}
 	nontrivial := false
 	seen := map[string]int{}
